@@ -201,8 +201,43 @@ def _rowwise_check(a):
             f2 = sorted([round(float(p[0]) - t[0], 5), round(float(p[1]) - t[1], 5)] for p in f2)
             f1 = sorted([round(p[0], 5), round(p[1], 5)] for p in field)
             if len(f1) != len(f2) or any(abs(u[0] - v[0]) > 2e-5 or abs(u[1] - v[1]) > 2e-5 for u, v in zip(f1, f2)):
+                # which boreholes differ?  The recorded finding concerns rows that meet the outline degenerately (see degenerate_row): there the tool's floating-point
+                # comparisons decide differently after a translation; a difference on an ordinary row is something else
+                def unmatched(fa, fb):
+                    return [p for p in fa if not any(abs(p[0] - q[0]) <= 2e-5 and abs(p[1] - q[1]) <= 2e-5 for q in fb)]
+
+                diff = unmatched(f1, f2) + unmatched(f2, f1)
+
+                def degenerate_row(p):
+                    """the row through p (direction = the rotation) meets the outline in a degenerate way: its chord is an exact multiple of the spacing (the number
+                    of boreholes on it hangs on the rounding of floor(length / spacing)), it runs along an edge, or it passes through a vertex"""
+                    cx_, sx_ = math.cos(rot), math.sin(rot)
+                    ts, n_ = [], len(pts)
+                    for i in range(n_):
+                        ax, ay = pts[i]
+                        bx, by = pts[(i + 1) % n_]
+                        da = (ax - p[0]) * sx_ - (ay - p[1]) * cx_   # signed distance of the edge's ends from the row line
+                        db = (bx - p[0]) * sx_ - (by - p[1]) * cx_
+                        if abs(da) < 0.05 or abs(db) < 0.05:
+                            return True  # through (or within 5 cm of) a vertex, or along an edge
+                        if abs(da - db) < 0.02 * math.hypot(bx - ax, by - ay) and min(abs(da), abs(db)) < s:
+                            return True  # nearly parallel (about 1 degree) to an edge less than one spacing away: the chord's ends slide far along that edge
+                        if da * db < 0:
+                            u = da / (da - db)
+                            ts.append((ax + u * (bx - ax) - p[0]) * cx_ + (ay + u * (by - ay) - p[1]) * sx_)
+                    if len(ts) != 2:
+                        return True
+                    length = abs(ts[1] - ts[0])
+                    return abs(length / s - round(length / s)) < 1e-3
+
+                # ... or the whole row layout is degenerate: the lot's extent perpendicular to the rows is an exact multiple of the spacing, so the number of rows
+                # floor(extent / spacing) hangs on rounding and every row moves
+                offs = [q[0] * math.sin(rot) - q[1] * math.cos(rot) for q in pts]
+                extent = max(offs) - min(offs)
+                on_outline = abs(extent / s - round(extent / s)) < 1e-6 or all(degenerate_row(p) for p in diff)
                 return False, {"why": "translating the lot does not translate the field rigidly", "n": [len(f1), len(f2)], "outline": pts, "translate": t, "rotation_deg": a.get("rot_deg", 0.0),
-                               "spacing": s, "signature": "translation/" + ("borehole-count-differs" if len(f1) != len(f2) else "positions-differ")}
+                               "spacing": s, "differing_boreholes": diff[:6],
+                               "signature": "translation/" + ("rows-that-meet-the-outline-degenerately-differ" if on_outline else "ordinary-rows-differ") + ("/count" if len(f1) != len(f2) else "/positions")}
         # the rotation sweep keeps the densest field
         if a.get("sweep"):
             from ghedesigner.rowwise import remove_duplicates
